@@ -57,6 +57,8 @@ class Norm:
         if k == 'seq':
             return self.fuse(seq([self.norm(x) for x in t[1]]))
         if k == 'op':
+            if len(t) > 4 and t[4] is not None:
+                return ('op', t[1], self.classify_item(t[2]), t[3], ('len', self.dom(t[4][1])))
             return ('op', t[1], self.classify_item(t[2]), t[3])
         if k == 'loop':
             d = t[1]
@@ -73,6 +75,9 @@ class Norm:
             if is_eps(body):
                 return EPS
             if isinstance(d, tuple) and d[0] == 'const':
+                tag = f'index<const({d[1]})>'
+                if self.mentions_sub(t[2], tag):
+                    return self.fuse(seq([self.norm(self.subst(t[2], tag, f'i:{i}')) for i in range(d[1])]))
                 return self.fuse(seq([body] * d[1]))
             # Loop(d, Alt(k, X, eps)) -> Loop(filter(d,k), X)
             if body[0] == 'alt' and len(body[2]) == 2:
@@ -115,6 +120,29 @@ class Norm:
                 out.append(x)
         return seq(out)
 
+    def mentions_sub(self, t, sub):
+        if t[0] == 'alt':
+            return sub in t[1] or any(self.mentions_sub(b, sub) for b in t[2])
+        if t[0] == 'seq':
+            return any(self.mentions_sub(x, sub) for x in t[1])
+        if t[0] == 'loop':
+            return sub in fmt_dom(t[1]) or self.mentions_sub(t[2], sub)
+        return False
+
+    def subst(self, t, a, b):
+        if t[0] == 'alt':
+            key = t[1].replace(a, b)
+            v = eval_key(key)
+            bs = [self.subst(x, a, b) for x in t[2]]
+            if v is not None and len(bs) == 2:
+                return bs[0] if v else bs[1]
+            return ('alt', key, bs)
+        if t[0] == 'seq':
+            return seq([self.subst(x, a, b) for x in t[1]])
+        if t[0] == 'loop':
+            return ('loop', t[1], self.subst(t[2], a, b))
+        return t
+
     def mentions(self, t, key):
         if t[0] == 'alt':
             if self.key(t[1]).lstrip('!') == key:
@@ -141,6 +169,20 @@ class Norm:
         return t
 
 
+def eval_key(k):
+    """evaluate closed integer comparisons such as `(i:0 < i:1)` / `!(i:1 < i:1)`"""
+    neg = False
+    while k.startswith('!'):
+        neg = not neg
+        k = k[1:]
+    m = re.match(r'^\(i:(\d+) (<|<=|>|>=|==|!=) i:(\d+)\)$', k)
+    if not m:
+        return None
+    a, op, b = int(m.group(1)), m.group(2), int(m.group(3))
+    v = {'<': a < b, '<=': a <= b, '>': a > b, '>=': a >= b, '==': a == b, '!=': a != b}[op]
+    return (not v) if neg else v
+
+
 def split_top(s):
     out, depth, cur = [], 0, ''
     for ch in s:
@@ -156,12 +198,39 @@ def split_top(s):
     return out
 
 
+def length_prefix(t):
+    """Rename length-prefixed domains: an integer operation carrying ('len', D) names D as LP#i (i = order of appearance); every
+    later loop over D is renamed.  Makes `write len; for x in xs {write x}` and `n = read; for _ in 0..n {read}` comparable."""
+    names = {}
+    counter = [-1]
+
+    def go(t):
+        k = t[0]
+        if k == 'op':
+            if len(t) > 4 and t[4] is not None:
+                d = t[4][1]
+                # every length-carrying operation opens a new length-prefixed section (two instances of one ADT share field names)
+                counter[0] += 1
+                names[d] = f'LP#{counter[0]}'
+                return ('op', t[1], t[2] + ':len(' + names[d] + ')', t[3])
+            return ('op', t[1], t[2], t[3])
+        if k == 'seq':
+            return ('seq', [go(x) for x in t[1]])
+        if k == 'loop':
+            d = names.get(t[1], t[1])
+            return ('loop', d, go(t[2]))
+        if k == 'alt':
+            return ('alt', t[1], [go(b) for b in t[2]])
+        return t
+    return go(t)
+
+
 DUAL = {'write': 'read', 'read': 'read', 'common': 'common', 'squeeze': 'squeeze'}
 
 
 def dualize(t):
     if t[0] == 'op':
-        return ('op', DUAL.get(t[1], t[1]), t[2], t[3])
+        return ('op', DUAL.get(t[1], t[1]), *t[2:])
     if t[0] == 'seq':
         return ('seq', [dualize(x) for x in t[1]])
     if t[0] == 'loop':
